@@ -887,6 +887,15 @@ fn corpus() -> Vec<Case> {
         c("impossible", "query Q { a { ... on B { y } } }", lbl("5.5.2.3", "op/inline/Object-in-Object", "impossible-spread")),
         c("args", "query Q { f(zz: 1) a { x(q: 1) } }", lbl("5.4.1", "op/field-arg", "unknown-argument")),
         c("required", "query Q { f }", lbl("5.4.2.1", "op/field-arg", "drop-required-argument")),
+        // 5.2.3.1: `__typename` is a response key like any other (spec CollectFields)
+        c("subscription-root-plus-typename", "subscription S { a __typename }", lbl("5.2.3.1", "subscription-root/second-field-is-__typename", "two-subscription-root-fields(direct,after)")),
+        c("subscription-typename-first-aliased-in-untyped-inline", "subscription S { ... @include(if: true) { t: __typename } a }", lbl("5.2.3.1", "subscription-root/second-field-is-aliased-__typename", "two-subscription-root-fields(untyped-inline-with-include,before)")),
+        c("subscription-typename-through-two-fragments", "subscription S { a ...F1 } fragment F1 on Subscription { ...F2 } fragment F2 on Subscription { __typename }", lbl("5.2.3.1", "subscription-root/second-field-is-__typename", "two-subscription-root-fields(two-named-fragments,after)")),
+        c("subscription-typename-on-root-inline", "subscription S { ... on Subscription { __typename } b }", lbl("5.2.3.1", "subscription-root/second-field-is-__typename", "two-subscription-root-fields(inline-on-root,before)")),
+        // one response key reached several ways is one root field; `__typename` below the root field does not count (C04)
+        c("subscription-one-key-many-ways", "subscription S { a ... on Subscription { a } ...F ... @include(if: true) { a } } fragment F on Subscription { ...G } fragment G on Subscription { a }", vec![]),
+        // spec 5.2.3.1 (Oct 2021) also forbids an introspection field as THE root field; not among the implemented rules (K only)
+        c("subscription-only-typename", "subscription S { __typename }", vec![]),
         // names of different namespaces may coincide (C04): operation = fragment = field = type = variable = directive
         c("op-name=fragment-name", "query A { a { ...A } } fragment A on A { id }", vec![]),
         c("fragment-before-op-of-its-name", "fragment Q on A { id } query Q { a { ...Q } }", vec![]),
@@ -1075,9 +1084,9 @@ pub fn run(prop: &str) {
                 f.push("variation:nullable-variable-with-default".into());
                 cases.push(Case { sdl: sdl.clone(), text: render(&d2, &mut rng), labels: vec![], origin: "valid-variant:nullable-with-default".into(), features: f, raw_schema: false });
             }
-            if let Some(d2) = mutate::duplicate_subscription_root(&doc) {
+            if let Some((d2, form)) = mutate::duplicate_subscription_root(&mut rng, schema.subscription.as_deref(), &doc) {
                 let mut f = feats.clone();
-                f.push("variation:subscription-root-selected-twice".into());
+                f.push(format!("variation:subscription-root-selected-twice({form})"));
                 cases.push(Case { sdl: sdl.clone(), text: render(&d2, &mut rng), labels: vec![], origin: "valid-variant:subscription-root-twice".into(), features: f, raw_schema: false });
             }
             if prop == "C04" {
@@ -1181,6 +1190,8 @@ pub fn run(prop: &str) {
                 if prop == "C03" && rng.chance(1, 12) {
                     // every pair of composite types deserves its turn: this operator gets extra weight
                     name = "impossible-spread-between-types";
+                } else if prop == "C03" && schema.subscription.is_some() && rng.chance(1, 15) {
+                    name = "two-subscription-root-fields";
                 }
                 // shape transformation first (C03): the fault is injected into a document in which several
                 // definitions reach the same fragments / definitions come in another order
